@@ -56,7 +56,7 @@ class Case final : public sim::CaseBase {
     stop_kind = static_cast<int>(g.Draw(4));
     stop_at = g.Draw(40) * 15;
     for (int s = 0; s < submitters; ++s) {
-      const int m = 1 + static_cast<int>(g.Draw(5));
+      const int m = 1 + static_cast<int>(g.Draw(sim::Thorough() ? 8 : 5));
       for (int k = 0; k < m; ++k) {
         JobState j;
         j.submitter = s;
